@@ -7,6 +7,7 @@ use std::fs;
 
 mod client;
 mod holder;
+mod macros;
 mod queue;
 mod sinks;
 mod writer;
@@ -53,6 +54,7 @@ fn main() {
             "client" => client::replay(&sc),
             "sink" => sinks::replay(&sc),
             "holder-window" => holder::replay(&sc),
+            "macro" => macros::replay(&sc),
             "queue" | "queue-capacity" | "queue-blocking-emit" | "queue-stats" => queue::replay(&sc),
             _ => json!({"error": format!("unknown scenario kind {}", kind)}),
         };
